@@ -15,7 +15,7 @@ LEVEL = 'exploration'
 ENGINE = 'E1'
 TECHNIQUE = ('bounded-exhaustive enumeration: each of the 12 signature bytes in {00, position marker, FF} (thorough: all 3^12; '
              'quick: all vectors within 2 positions of the all-zero and all-marker vectors) x chip-data configurations (absent, '
-             'synthetic full, 5 partial) x routes (ParserData upper/lower case, SRC parser, signature-list user data with 0..3 '
+             'synthetic full, 5 partial with keys removed, 4 with incomplete entries: name only / empty / null entry / null tables) x routes (ParserData upper/lower case, SRC parser, signature-list user data with 0..3 '
              'entries, parsePEL); register dumps chips 0..2 x registers 0..2 x 7 data sizes; scratch registers, callout FFDC; '
              'vs. a reference model from the statement')
 LEVEL_TEXT = ('The slicing of the 12 signature bytes is decided by giving every byte position a value no other position has, in '
@@ -26,7 +26,7 @@ LEVEL_TEXT = ('The slicing of the 12 signature bytes is decided by giving every 
 LEVEL_NOTE = ('signature byte values beyond the 3-value alphabet, structurally malformed chip data files and the cosmetic layout '
               'of register-dump lines are not constrained')
 RULE = ('signatures = {00, marker_i, FF}^12 (quick: Hamming distance <= 2 from 0^12 and marker^12); configs = absent / full / '
-        'no-signatures / no-such-bit / no-attn / no-registers / other-chip; routes = get_signature (upper, lower), '
+        'no-signatures / no-such-bit / no-attn / no-registers / other-chip / name-only entries / empty entries / null entries / null tables; routes = get_signature (upper, lower), '
         'srcparsers.oe500 (refcode suffix 10 / other), udparsers.oe500 subtype 1 with 0..3 signatures, parsePEL SRC Details; '
         'register dumps = chips 0..2 x registers 0..2 x sizes {1,2,3,4,5,8,255} x 3 configs; subtypes 3,4,5. Non-trivial: at '
         'least one non-zero byte; distinct by (bytes, config, route).')
